@@ -99,19 +99,19 @@ impl MTerm {
     pub fn to_simple(&self) -> SimpleTerm<'static> {
         match self {
             MTerm::Iri(i) => SimpleTerm::Iri(
-                IriRef::new(i.clone().into()).unwrap_or_else(|e| panic!("model IRI {i:?}: {e}")),
+                IriRef::new(i.clone().into()).unwrap_or_else(|e| panic!("ORACLE: the validating constructor rejects the well-formed IRI {i:?} of the workload pool: {e}")),
             ),
             MTerm::Bnode(b) => SimpleTerm::BlankNode(
-                BnodeId::new(b.clone().into()).unwrap_or_else(|e| panic!("model bnode {b:?}: {e}")),
+                BnodeId::new(b.clone().into()).unwrap_or_else(|e| panic!("ORACLE: the validating constructor rejects the well-formed blank node label {b:?} of the workload pool: {e}")),
             ),
             MTerm::Lit(lex, dt) => SimpleTerm::LiteralDatatype(
                 lex.clone().into(),
-                IriRef::new(dt.clone().into()).unwrap_or_else(|e| panic!("model dt {dt:?}: {e}")),
+                IriRef::new(dt.clone().into()).unwrap_or_else(|e| panic!("ORACLE: the validating constructor rejects the well-formed datatype IRI {dt:?} of the workload pool: {e}")),
             ),
             MTerm::Lang(lex, tag) => SimpleTerm::LiteralLanguage(
                 lex.clone().into(),
                 LanguageTag::new(tag.clone().into())
-                    .unwrap_or_else(|e| panic!("model tag {tag:?}: {e}")),
+                    .unwrap_or_else(|e| panic!("ORACLE: the validating constructor rejects the well-formed language tag {tag:?} of the workload pool: {e}")),
             ),
             MTerm::Triple(t) => SimpleTerm::Triple(Box::new([
                 t[0].to_simple(),
@@ -119,7 +119,7 @@ impl MTerm {
                 t[2].to_simple(),
             ])),
             MTerm::Var(v) => SimpleTerm::Variable(
-                VarName::new(v.clone().into()).unwrap_or_else(|e| panic!("model var {v:?}: {e}")),
+                VarName::new(v.clone().into()).unwrap_or_else(|e| panic!("ORACLE: the validating constructor rejects the well-formed variable name {v:?} of the workload pool: {e}")),
             ),
         }
     }
